@@ -96,7 +96,7 @@ def ident_of(obs):
 
 
 # ---- defect models (genuine defects of the unchanged tree, see the final report) ---------------------------------------
-def classify_internal(files, tb):
+def classify_internal(files, tb, err=None):
     """-> 'KF-C18-n' when the INTERNAL_ERROR is exactly what a modelled defect predicts for this text, else None"""
     if tb is None:
         return None
@@ -120,6 +120,21 @@ def classify_internal(files, tb):
             for c in R.candidate_strings(texts):
                 if '@[' not in c and R.path_glob_refused(c):
                     return 'KF-C18-3'
+        return None
+    if tb['type'] == 'ValueError' and tb['message'] in ('embedded null byte', 'embedded null character') \
+            and any('\x00' in t for t in texts):
+        # KF-C18-4: a NUL character in an argument that becomes a file name / program argument reaches the OS
+        # interface unchecked.  Model: the text contains NUL and Python reports exactly that.
+        return 'KF-C18-4'
+    m = re.search(r'Name not in symbol table: "([^"]+)"', err or '')
+    if m and inner == ('exactly_lib/util/symbol_table.py', 'lookup') and tb['type'] == 'KeyError' \
+            and 'PhaseStepFailureException' in err and (err.startswith('In [cleanup]')):
+        # KF-C18-5: an instruction of an earlier phase fails (HARD_ERROR / FAIL), the `def` after it is never
+        # executed, [cleanup] is run all the same and one of its instructions refers to that symbol.
+        # Model: the report is about [cleanup], it is a chained traceback that starts with the phase failure, and
+        # the missing name is defined by a `def` of the case.
+        if re.search(r'(^|\n)\s*def\s+\S+\s+%s\s*=' % re.escape(m.group(1)), '\n'.join(texts)):
+            return 'KF-C18-5'
         return None
     in_replace = any(f[0] == 'exactly_lib/impls/types/string_transformer/impl/replace/impl.py' for f in tb['frames'])
     in_template = any(f[1] in ('parse_template', '_compile_template', 'expand_template', '_subx', 'template')
@@ -153,7 +168,7 @@ def generic_problem(files, obs):
                 {'what': 'exit code differs from the documented one', 'documented': R.TABLE[ident]}, None)
     tb = R.traceback_summary(obs['err'])
     if ident == 'INTERNAL_ERROR' or (tb and tb['innermost_exactly']):
-        known = classify_internal(files, tb)
+        known = classify_internal(files, tb, obs['err'])
         inner = tb['innermost_exactly'] if tb else None
         return ('internal-error/%s/%s' % (tb['type'] if tb else '?', '%s:%s' % inner if inner else '?'),
                 {'what': 'INTERNAL_ERROR / traceback of the program for a mistake in the text of the case',
